@@ -87,7 +87,8 @@ def gen_cases(rng: Rng, tier):
             C, ck = _coef(rng, N, K)
             case = dict(kind=kind, fam=fam, K=K, t=[rs(x) for x in _grid(rng, m, unit=(fam in ("wiener",)))],
                         C=_S(C), ck=ck, w0=rs(rng.choice([Fraction(2), Fraction(1, 4), Fraction(9)])),
-                        degree=rng.randint(1, 3), stand=rng.random() < 0.3)
+                        degree=rng.randint(1, 3), stand=rng.random() < 0.3,
+                        normalized=(rng.random() < 0.25 and m >= 5), intercept=rng.random() >= 0.2)
             if fam == "given":
                 case["Phi"] = _S([rng.dyadics(m, -3, 3, 3) for _ in range(K)])
             yield case
@@ -131,7 +132,7 @@ def gen_cases(rng: Rng, tier):
         elif kind == "csv":
             ncol = rng.randint(1, 7)
             nrow = rng.randint(1, 6)
-            hk = rng.choice(["int", "int", "int_unsorted", "neg_int", "float", "text", "mixed"])
+            hk = rng.choice(["int", "int", "int_unsorted", "neg_int", "float", "floatint", "quarter", "text", "mixed"])
             if hk == "int":
                 hs = [str(x) for x in sorted(rng.sample(range(0, 40), ncol))]
             elif hk == "int_unsorted":
@@ -140,6 +141,12 @@ def gen_cases(rng: Rng, tier):
                 hs = [str(x) for x in sorted(rng.sample(range(-20, 20), ncol))]
             elif hk == "float":
                 hs = [f"{x}.5" for x in sorted(rng.sample(range(0, 40), ncol))]
+            elif hk == "floatint":
+                hs = [f"{x}.0" for x in sorted(rng.sample(range(1, 40), ncol))]  # numeric, integer-valued, not integer literals
+            elif hk == "quarter":
+                hs = [_dec(Fraction(x, 4)) for x in sorted(rng.sample(range(1, 60), ncol))]
+                if all("." not in h for h in hs):
+                    hs[0] = hs[0] + ".0"
             elif hk == "text":
                 hs = [f"c{x}" for x in range(ncol)]
             else:
@@ -157,7 +164,7 @@ def gen_cases(rng: Rng, tier):
                     keep = rng.randrange(ncol)
                     row = [c if (j == keep or rng.random() > p) else "n" for j, c in enumerate(row)]
                 cells.append(row)
-            yield dict(kind=kind, headers=hs, hk=hk, cells=cells, intvals=rng.random() < 0.2)
+            yield dict(kind=kind, headers=hs, hk=hk, cells=cells, sep=rng.choice([",", ",", ";", "\t"]))
         elif kind == "ps":
             dim = 1 if rng.random() < 0.7 else 2
             if dim == 1:
@@ -169,6 +176,20 @@ def gen_cases(rng: Rng, tier):
                 case = dict(kind=kind, dim=1, nseg=nseg, deg=deg, t=[rs(x) for x in _grid(rng, m)], N=N, sub=sub,
                             pen=rs(pen), Y=_S([rng.dyadics(m, -4, 4, 3) for _ in range(N)]),
                             G=_S([rng.dyadics(nseg + deg, -3, 3, 2) for _ in range(N)]), pts=rng.random() < 0.3)
+                if rng.random() < 0.5:
+                    # the same curves as IRREGULAR data (both encodings): to_basis∘to_grid vs smooth on the irregular class
+                    mk = []
+                    for _ in range(N):
+                        r = [1 if rng.random() < 0.75 else 0 for _ in range(m)]
+                        if rng.random() < 0.5:
+                            r[0] = 0
+                        while sum(r) < min(m, nseg + deg + 1):
+                            r[rng.randrange(m)] = 1
+                        mk.append(r)
+                    for j in range(m):
+                        if not any(r[j] for r in mk):
+                            mk[rng.randrange(N)][j] = 1
+                    case["irrmask"] = mk
             else:
                 nseg, deg = rng.randint(1, 3), rng.randint(1, 2)
                 m1 = rng.randint(nseg + deg + 1, nseg + deg + 4)
@@ -263,7 +284,8 @@ def _run_basis(case):
             if fam == "bsplines":
                 K = max(K, case["degree"] + 1)
                 kw = dict(degree=case["degree"])
-            basis = Basis(name=fam, n_functions=K, argvals=arg, **kw)
+            basis = Basis(name=fam, n_functions=K, argvals=arg, is_normalized=bool(case.get("normalized", False)),
+                          add_intercept=bool(case.get("intercept", True)), **kw)
         if basis.values.shape[0] != C.shape[1]:
             # bsplines need at least degree + 1 functions: pad the coefficients deterministically
             extra = basis.values.shape[0] - C.shape[1]
@@ -294,6 +316,10 @@ def _run_basis(case):
             else:
                 C = C[:, :Kt]
             out["C_used"] = [[rs(Fraction(float(x))) for x in r] for r in C]
+    if not np.all(np.isfinite(basis.values)):
+        # e.g. is_normalized=True where Simpson's rule on a coarse non-uniform grid gives a non-positive
+        # squared norm (the basis families are C18's): nothing to compare
+        return {"skipped": "non-finite basis values"}
     out["phi"] = _exact(basis.values)
     out["phi_shape"] = list(basis.values.shape)
     N = C.shape[0]
@@ -439,14 +465,15 @@ def _run_csv(case):
     d = tempfile.mkdtemp(prefix="verif_c14_")
     try:
         path = os.path.join(d, "data.csv")
+        sep = case.get("sep", ",")
         with open(path, "w") as fh:
-            fh.write(",".join(case["headers"]) + "\n")
+            fh.write(sep.join(case["headers"]) + "\n")
             for row in case["cells"]:
-                fh.write(",".join("" if c == "n" else _dec(F(c)) for c in row) + "\n")
+                fh.write(sep.join("" if c == "n" else _dec(F(c)) for c in row) + "\n")
         try:
             with warnings.catch_warnings():
                 warnings.simplefilter("ignore")
-                fd = read_csv(path)
+                fd = read_csv(path) if sep == "," else read_csv(path, sep=sep)  # keyword forwarded to pandas
             if isinstance(fd, DenseFunctionalData):
                 out["cls"] = "dense"
                 out["args"] = [float(x) for x in fd.argvals["input_dim_0"]]
@@ -508,6 +535,28 @@ def _run_ps(case):
         out["cond"] = float(np.linalg.cond(BB @ BB.T)) if pen == 0 else 0.0
     out["K"] = K
     out["Y"] = Y.reshape(len(Y), -1).tolist()
+    if case.get("irrmask") and case["dim"] == 1:
+        from FDApy.representation.argvals import IrregularArgvals
+        from FDApy.representation.functional_data import IrregularFunctionalData
+        from FDApy.representation.values import IrregularValues
+
+        Mb = np.array(case["irrmask"], dtype=bool)
+        enc = {
+            "nan": IrregularFunctionalData(IrregularArgvals({i: DenseArgvals({"input_dim_0": t.copy()}) for i in range(len(Y))}),
+                                           IrregularValues({i: np.where(Mb[i], Y[i], np.nan) for i in range(len(Y))})),
+            "rag": IrregularFunctionalData(IrregularArgvals({i: DenseArgvals({"input_dim_0": t[Mb[i]].copy()}) for i in range(len(Y))}),
+                                           IrregularValues({i: Y[i][Mb[i]].copy() for i in range(len(Y))})),
+        }
+        out["irr"] = {}
+        for key, fi in enc.items():
+            with warnings.catch_warnings():
+                warnings.simplefilter("ignore")
+                try:
+                    bi = fi.to_basis(penalty=penalty, n_segments=nseg, degree=deg)
+                    out["irr"][key] = dict(tb=bi.to_grid().values.tolist(), sm=fi.smooth(method="PS", penalty=penalty, n_segments=nseg, degree=deg).values.tolist(),
+                                           coefs=bi.coefficients.tolist())
+                except Exception as e:
+                    out["irr"][key] = "error:" + err_class(e)
     kw = dict(n_segments=nseg, degree=deg)
     with warnings.catch_warnings():
         warnings.simplefilter("ignore")
@@ -547,7 +596,7 @@ def _M(m):
 
 def model_lines(case, impl):
     kind = case["kind"]
-    if "__crash__" in impl:
+    if "__crash__" in impl or "skipped" in impl:
         return []
     if kind == "basis1":
         t = ",".join(case["t"])
@@ -897,8 +946,10 @@ def _oracle_tolong(case, impl):
         labels = impl["labels"]
         ids = sorted({r[0] for r in rows})
         if labels != list(range(len(labels))) and ids == list(range(len(labels))):
-            vs.append(dict(clause="to_long", entry=entry, causes=["ids_are_positions"],
-                           msg=f"to_long(reindex=False) lists the observations as {ids}, their labels are {labels}"))
+            # Accepted: a sub-selection behaves like a freshly built dataset (property C13: a subset's long
+            # format equals that of a twin with the same content), so its observations are listed by position.
+            # C14 only requires every (observation, point, value) exactly once; listing by label or by
+            # position are both bijective, and both are accepted here.
             pos = {i: lab for i, lab in enumerate(labels)}
             rows = [[pos[r[0]]] + r[1:] for r in rows]
     seen = {}
@@ -958,6 +1009,13 @@ def _oracle_ps(case, impl):
                        msg=f"to_basis().to_grid() differs from smooth(method='PS') with the same settings: max |Δ| = {np.abs(np.array(impl['tb_grid']) - np.array(impl['smooth'])).max():.3g}"))
     if not impl.get("same_argvals", True):
         vs.append(dict(clause="to_basis_to_grid", entry="DenseFunctionalData.to_basis", msg="to_grid() of the expansion is on other sampling points"))
+    for key, r in (impl.get("irr") or {}).items():
+        entry = "IrregularFunctionalData.to_basis"
+        if isinstance(r, str):
+            vs.append(dict(clause="to_basis_to_grid", entry=entry, msg=f"irregular data ({key} encoding): {r}"))
+        elif not _near(r["tb"], r["sm"], sc, min(1e-5, max(1e-7, tol))):
+            vs.append(dict(clause="to_basis_to_grid", entry=entry,
+                           msg=f"irregular data ({key} encoding): to_basis().to_grid() differs from smooth(method='PS') with the same settings: max |Δ| = {np.abs(np.array(r['tb']) - np.array(r['sm'])).max():.3g}"))
     K = impl["K"]
     d = case["dim"]
     if len(impl["coefs"][0]) != K ** d or impl["basis_shape"][0] != K ** d:
@@ -974,6 +1032,8 @@ def oracle(case, impl):
     if "__crash__" in impl:
         return [dict(clause="runs", entry=case["kind"], msg=f"crash {impl['__crash__']}: {impl.get('msg')} {impl.get('tb', '')[-300:]}")]
     kind = case["kind"]
+    if "skipped" in impl:
+        return []
     if kind in ("basis1", "basis2"):
         return _oracle_basis(case, impl)
     if kind == "tolong":
@@ -994,6 +1054,8 @@ def nontrivial(case, impl):
 def classify(case, impl):
     k = case["kind"]
     tags = ["kind:" + k]
+    if "skipped" in impl:
+        return tags + ["skipped:" + impl["skipped"]]
     if k == "basis1":
         tags += ["family:" + case["fam"], "coef:" + case["ck"], "n_obs:" + str(min(len(case["C"]), 4)) + ("+" if len(case["C"]) >= 4 else "")]
         if isinstance(impl.get("G"), str):
